@@ -5,6 +5,8 @@ import (
 	"fmt"
 	"math/rand"
 	"strings"
+	"sync/atomic"
+	"time"
 
 	"github.com/syndtr/goleveldb/leveldb/iterator"
 	"github.com/syndtr/goleveldb/leveldb/memdb"
@@ -60,6 +62,34 @@ type runStats struct {
 // and, if render is set, returns the observed run as Coq text for (K).
 // The first failure is returned as (description, index of the failing op).
 func execProgram(p Program, render bool) (fail string, failAt int, coq string, st runStats) {
+	var progress int32
+	type result struct {
+		fail   string
+		failAt int
+		coq    string
+		st     runStats
+	}
+	ch := make(chan result, 1)
+	go func() {
+		f, at, cq, s := execProgramRaw(p, render, &progress)
+		ch <- result{f, at, cq, s}
+	}()
+	limit := 20*time.Second + time.Duration(len(p.Ops))*2*time.Millisecond
+	select {
+	case r := <-ch:
+		return r.fail, r.failAt, r.coq, r.st
+	case <-time.After(limit):
+		// the goroutine is left spinning; the caller reports and the process exits soon after
+		at := int(atomic.LoadInt32(&progress))
+		name := "?"
+		if at < len(p.Ops) {
+			name = p.Ops[at].Name
+		}
+		return fmt.Sprintf("op %d %s did not return within %v: the call loops forever", at, name, limit), at, "", runStats{}
+	}
+}
+
+func execProgramRaw(p Program, render bool, progress *int32) (fail string, failAt int, coq string, st runStats) {
 	failAt = -1
 	cmp := vlib.ComparerByID(p.Cmp)
 	db := memdb.New(cmp, p.Capacity)
@@ -90,6 +120,7 @@ func execProgram(p Program, render bool) (fail string, failAt int, coq string, s
 	z := func(n int) string { return fmt.Sprintf("(%d)%%Z", n) }
 	for idx = 0; idx < len(p.Ops) && fail == ""; idx++ {
 		o := p.Ops[idx]
+		atomic.StoreInt32(progress, int32(idx))
 		k, v := unhx(o.K), unhx(o.V)
 		switch o.Kind {
 		case oPut:
